@@ -1,5 +1,936 @@
 package props
 
-import "rjverif/internal/core"
+import (
+	"fmt"
+	"go/ast"
+	"go/constant"
+	"go/token"
+	"go/types"
+	"strconv"
 
-func (x *Ctx) stringContentRules(r *core.Result) {}
+	"golang.org/x/tools/go/ssa"
+
+	"rjverif/internal/core"
+	"rjverif/internal/lts"
+	"rjverif/internal/machine"
+	"rjverif/internal/product"
+	"rjverif/internal/ref"
+)
+
+// escapeCode: the RFC 8259 code point of a simple escape character.
+var escapeCode = map[byte]byte{'"': 0x22, '\\': 0x5C, '/': 0x2F, 'b': 0x08, 'f': 0x0C, 'n': 0x0A, 'r': 0x0D, 't': 0x09}
+
+// emissionTypestate: R06b on one string machine. Abstract state of the emission frontier E relative to the cursor p:
+//
+//	S0      E == p                      nothing pending
+//	RAW     segStart == E <= p          the bytes [E,p) are raw bytes of one segment
+//	ESC(k)  segStart == E == p-k        the bytes [E,p) are the first k bytes of an escape (k=1: backslash, 2..5: \u + hex)
+//
+// Every primitive on every edge must be the one this state and byte class demand; on acceptance nothing is pending.
+func (x *Ctx) emissionTypestate(r *core.Result, rs *core.RuleStat, m *machine.Machine, allowApostrophe bool) {
+	const (
+		unv = -1
+		s0  = 0
+		raw = 1
+		esc = 10 // esc+k
+	)
+	if len(m.Unescs) == 0 {
+		r.Fail(rs, m.Name+":unicode", x.W.Pos(m.Decl.Pos()), "no \\u escape handling found")
+		return
+	}
+	segVar := m.Unescs[0].SegSym
+	for _, u := range m.Unescs {
+		if !u.OK || u.SegSym != segVar || u.SkipBase != 6 {
+			r.Fail(rs, m.Name+":unesc-shape", x.W.Pos(u.Pos), fmt.Sprintf("\\u helper call must pass data[<segment start>:], stop on !ok and skip exactly n-6 further bytes when n > 6 (found base %d)", u.SkipBase))
+		}
+	}
+	abs := map[int]int{}
+	for id := range m.LTS.States {
+		abs[id] = unv
+	}
+	abs[m.LTS.Start] = s0
+	work := []int{m.LTS.Start}
+	rawSet := lts.Range(0x20, 0xff).Minus(lts.OfString(`"\`))
+	bad := map[string]bool{}
+	fail := func(id int, e *lts.Edge, msg string) {
+		k := fmt.Sprintf("%s:state %d:%s", m.Name, id, msg)
+		if bad[k] {
+			return
+		}
+		bad[k] = true
+		b := e.Bytes.Pick()
+		r.Fail(rs, fmt.Sprintf("%s:content:%s", m.Name, msg), e.Pos, fmt.Sprintf("in state %d on %s (e.g. %q): %s", id, e.Bytes, rune(b), msg))
+	}
+	edges := 0
+	for len(work) > 0 {
+		id := work[len(work)-1]
+		work = work[:len(work)-1]
+		st := m.LTS.States[id]
+		if st == nil {
+			continue
+		}
+		a := abs[id]
+		for i := range st.Edges {
+			e := &st.Edges[i]
+			if e.Term.Kind == lts.Exit && !e.Term.OK {
+				continue
+			}
+			edges++
+			// classify the prims
+			var kinds []string
+			for _, p := range e.Prims {
+				kinds = append(kinds, p.Kind)
+			}
+			has := func(k string) *lts.Prim {
+				for j := range e.Prims {
+					if e.Prims[j].Kind == k {
+						return &e.Prims[j]
+					}
+				}
+				return nil
+			}
+			next := unv
+			cur := a
+			// emission of the pending raw segment must come first when something is pending
+			if p := has("EMIT_SEG"); p != nil {
+				if cur != raw {
+					fail(id, e, "a raw segment is emitted although none is pending (bytes would be emitted twice or escape bytes copied verbatim)")
+				}
+				if p.Arg != segVar {
+					fail(id, e, "the segment emitted does not start at the recorded segment start")
+				}
+				cur = s0
+			}
+			if e.Term.Kind == lts.Exit && e.Term.OK {
+				// success exit: nothing may be pending. The content variant stops successfully at bytes that cannot occur
+				// in well-formed content (raw quote, control byte): outside the property's quantifier, not judged.
+				if allowApostrophe {
+					continue
+				}
+				if cur != s0 {
+					fail(id, e, "the string ends while bytes are still pending (content lost)")
+				}
+				continue
+			}
+			switch {
+			case !e.Bytes.And(rawSet).Empty() && (cur == s0 || cur == raw):
+				// raw byte
+				if cur == s0 {
+					if has("MARK") == nil {
+						fail(id, e, "a raw segment starts without recording its start")
+					}
+					next = raw
+				} else {
+					if has("MARK") != nil {
+						fail(id, e, "the segment start is moved while bytes are pending (content lost)")
+					}
+					next = raw
+				}
+				if has("EMIT_CONST") != nil || has("UNESC_U") != nil {
+					fail(id, e, "a raw byte emits an escape result")
+				}
+			case e.Bytes == lts.Of('\\') && (cur == s0 || cur == raw):
+				if cur == raw {
+					fail(id, e, "an escape starts while a raw segment is still pending (content lost)")
+				}
+				if has("MARK") == nil {
+					fail(id, e, "the start of an escape is not recorded (the \\u helper would decode from the wrong place)")
+				}
+				next = esc + 1
+			case e.Bytes == lts.Of('"') && (cur == s0 || cur == raw):
+				if cur == raw {
+					fail(id, e, "the closing quote is consumed while a raw segment is still pending (content lost)")
+				}
+				next = s0
+			case cur == esc+1:
+				if pc := has("EMIT_CONST"); pc != nil {
+					for b := 0; b < 256; b++ {
+						if !e.Bytes.Has(byte(b)) {
+							continue
+						}
+						want, ok := escapeCode[byte(b)]
+						if b == '\'' && allowApostrophe {
+							want, ok = '\'', true
+						}
+						v, _ := strconv.ParseInt(pc.Arg, 0, 32)
+						if !ok || byte(v) != want {
+							fail(id, e, fmt.Sprintf("escape \\%c emits 0x%02x, RFC 8259 says 0x%02x", b, v, want))
+						}
+					}
+					next = s0
+				} else if e.Bytes == lts.Of('u') {
+					next = esc + 2
+				} else {
+					fail(id, e, "an escape character neither emits its code point nor starts \\u")
+				}
+			case cur >= esc+2 && cur <= esc+4:
+				if len(kinds) != 0 {
+					fail(id, e, "a hex digit inside \\u carries an action")
+				}
+				next = cur + 1
+			case cur == esc+5:
+				if has("UNESC_U") == nil {
+					fail(id, e, "the fourth hex digit does not decode the \\u escape")
+				}
+				next = s0
+			default:
+				fail(id, e, fmt.Sprintf("edge not expected in emission state %d", cur))
+			}
+			if e.Term.Kind != lts.Move {
+				continue
+			}
+			if next == unv {
+				continue
+			}
+			if abs[e.Term.To] == unv {
+				abs[e.Term.To] = next
+				work = append(work, e.Term.To)
+			} else if abs[e.Term.To] != next {
+				fail(id, e, fmt.Sprintf("state %d is reached both with emission state %d and %d: pending bytes would be handled inconsistently", e.Term.To, abs[e.Term.To], next))
+			}
+		}
+		// end of input
+		for _, o := range st.EOF {
+			if !o.OK {
+				continue
+			}
+			emit := false
+			for _, p := range o.Prims {
+				if p.Kind == "EMIT_SEG" {
+					emit = true
+				}
+			}
+			if a == raw && !emit {
+				r.Fail(rs, fmt.Sprintf("%s:content:eof-pending", m.Name), st.Pos, fmt.Sprintf("in state %d the input may end successfully while a raw segment is pending and is not emitted", id))
+			}
+			if a != raw && emit {
+				r.Fail(rs, fmt.Sprintf("%s:content:eof-emit", m.Name), st.Pos, fmt.Sprintf("in state %d a segment is emitted at end of input although none is pending", id))
+			}
+			if a >= esc {
+				r.Fail(rs, fmt.Sprintf("%s:content:eof-escape", m.Name), st.Pos, fmt.Sprintf("in state %d the input may end successfully in the middle of an escape", id))
+			}
+		}
+	}
+	// skip consistency: after UNESC_U the skipped second escape would lead to the same state (R06b last clause)
+	for id, st := range m.LTS.States {
+		for i := range st.Edges {
+			e := &st.Edges[i]
+			isU := false
+			for _, p := range e.Prims {
+				if p.Kind == "UNESC_U" {
+					isU = true
+				}
+			}
+			if !isU || e.Term.Kind != lts.Move {
+				continue
+			}
+			T := e.Term.To
+			cur := map[int]bool{T: true}
+			for _, set := range []lts.ByteSet{lts.Of('\\'), lts.Of('u'), ref.Hex, ref.Hex, ref.Hex, ref.Hex} {
+				nx := map[int]bool{}
+				for s := range cur {
+					ss := m.LTS.States[s]
+					if ss == nil {
+						continue
+					}
+					for b := 0; b < 256; b++ {
+						if !set.Has(byte(b)) {
+							continue
+						}
+						for _, e2 := range ss.EdgesFor(byte(b)) {
+							if e2.Term.Kind == lts.Move {
+								nx[e2.Term.To] = true
+							} else {
+								nx[-1] = true
+							}
+						}
+					}
+				}
+				cur = nx
+			}
+			if len(cur) != 1 || !cur[T] {
+				r.Fail(rs, fmt.Sprintf("%s:content:pair-skip", m.Name), e.Pos, fmt.Sprintf("after decoding a surrogate pair in state %d the machine skips the second \\uXXXX; processing those six bytes normally would not lead back to the same state (%v vs %d)", id, cur, T))
+			}
+		}
+	}
+	rs.Instances++
+	if len(bad) == 0 {
+		rs.OK(edges)
+		rs.Sample(fmt.Sprintf("%s: %d edges; raw bytes emitted once from the segment start, escapes emit their RFC code point, \\u decoded at the 4th hex digit from the backslash", m.Name, edges))
+	}
+}
+
+// fastLoopRule: the hand-written prefix loops of ReadStringBytes / ReadString emit data[start:p] with start = position
+// after the opening quote, p = the loop cursor, before handing data[p:] to the machine or at the closing quote.
+func (x *Ctx) fastLoopRule(r *core.Result, rs *core.RuleStat, name string) {
+	w := x.W
+	fn := x.Func(name)
+	if fn == nil {
+		r.Undecided(rs, name, "-", "function not found")
+		return
+	}
+	rs.Instances++
+	data := fn.Params[0]
+	ok := true
+	fail := func(k, msg string, pos token.Pos) {
+		r.Fail(rs, name+":"+k, w.Pos(pos), msg)
+		ok = false
+	}
+	// loop cursor: phi used as index of data in the loop, incremented by 1
+	var cursor *ssa.Phi
+	for _, b := range fn.Blocks {
+		for _, ins := range b.Instrs {
+			phi, isPhi := ins.(*ssa.Phi)
+			if !isPhi || !isIntT(phi.Type()) {
+				continue
+			}
+			for _, e := range phi.Edges {
+				if add, isAdd := e.(*ssa.BinOp); isAdd && add.Op == token.ADD && add.X == ssa.Value(phi) {
+					if k, isC := constBig(add.Y); isC && k.Int64() == 1 {
+						cursor = phi
+					}
+				}
+			}
+		}
+	}
+	if cursor == nil {
+		fail("loop", "no scanning loop found", fn.Pos())
+		return
+	}
+	// start = the cursor's entry value = (whitespace count + 1)
+	var start ssa.Value
+	for _, e := range cursor.Edges {
+		if add, isAdd := e.(*ssa.BinOp); isAdd && add.X == ssa.Value(cursor) {
+			continue
+		}
+		start = e
+	}
+	if start == nil {
+		fail("start", "cannot identify the position after the opening quote", cursor.Pos())
+		return
+	}
+	n := 0
+	for _, b := range fn.Blocks {
+		for _, ins := range b.Instrs {
+			var seg ssa.Value
+			switch t := ins.(type) {
+			case *ssa.Call:
+				if bi, isB := t.Call.Value.(*ssa.Builtin); isB && bi.Name() == "append" && len(t.Call.Args) == 2 {
+					seg = t.Call.Args[1]
+				}
+			case *ssa.Convert:
+				if isStringType(t.Type()) && isByteSliceT(t.X.Type()) {
+					if sl, isSl := t.X.(*ssa.Slice); isSl && sl.X == ssa.Value(data) {
+						seg = t.X
+					}
+				}
+			}
+			if seg == nil {
+				continue
+			}
+			sl, isSl := seg.(*ssa.Slice)
+			if !isSl || sl.X != ssa.Value(data) {
+				continue
+			}
+			n++
+			if sl.Low != start || sl.High != ssa.Value(cursor) {
+				fail("segment", "the bytes copied are not data[<after the opening quote> : <cursor>]", ins.Pos())
+			}
+		}
+	}
+	if n < 2 {
+		fail("segments", fmt.Sprintf("only %d copies of the unescaped prefix found (closing quote and first escape expected)", n), fn.Pos())
+	}
+	// machine calls get data[cursor:]
+	for _, b := range fn.Blocks {
+		for _, ins := range b.Instrs {
+			if c, isCall := ins.(*ssa.Call); isCall && c.Call.StaticCallee() != nil && x.Machine(c.Call.StaticCallee().Name()) != nil {
+				sl, isSl := c.Call.Args[0].(*ssa.Slice)
+				if !isSl || sl.X != ssa.Value(data) || sl.Low != ssa.Value(cursor) || sl.High != nil {
+					fail("handover", "the escape machine is not started at the cursor (data[p:])", c.Pos())
+				}
+			}
+		}
+	}
+	if ok {
+		rs.OK(1)
+		rs.Sample(name + ": prefix data[start:p] copied once at the closing quote / before the first escape; machine started at data[p:]")
+	}
+}
+
+// getu4Rule: R06d — value-set evaluation of the hex switch and shape of the accumulation.
+func (x *Ctx) getu4Rule(r *core.Result, rs *core.RuleStat) {
+	w := x.W
+	fd := w.FuncDecl(w.Root, "getu4")
+	if fd == nil {
+		r.Undecided(rs, "getu4", "-", "function not found")
+		return
+	}
+	rs.Instances++
+	info := w.Root.TypesInfo
+	fail := func(k, msg string, pos token.Pos) {
+		r.Fail(rs, "getu4:"+k, w.Pos(pos), msg)
+	}
+	var rng *ast.RangeStmt
+	var guard *ast.IfStmt
+	for _, s := range fd.Body.List {
+		switch t := s.(type) {
+		case *ast.RangeStmt:
+			rng = t
+		case *ast.IfStmt:
+			if guard == nil {
+				guard = t
+			}
+		}
+	}
+	if rng == nil || guard == nil {
+		r.Undecided(rs, "getu4:shape", w.Pos(fd.Pos()), "expected a guard followed by a range loop over the four hex digits")
+		return
+	}
+	// guard: len(data) < 6 || data[0] != '\\' || data[1] != 'u' -> return negative
+	gs := exprText(guard.Cond)
+	wantParts := []string{"len(data)<6", "data[0]!=92", "data[1]!=117"}
+	for _, p := range wantParts {
+		if !containsNorm(gs, p, info, guard.Cond) {
+			fail("guard", "the guard does not contain `"+p+"` (length >= 6, backslash, 'u')", guard.Pos())
+		}
+	}
+	if !returnsNegative(guard.Body, info) {
+		fail("guard-return", "the guard does not return a negative value", guard.Pos())
+	}
+	// range over data[2:6]
+	if se, ok := ast.Unparen(rng.X).(*ast.SliceExpr); !ok || !isConstInt(info, se.Low, 2) || !isConstInt(info, se.High, 6) {
+		fail("digits", "the loop does not run over exactly data[2:6]", rng.Pos())
+	}
+	cvar, _ := rng.Value.(*ast.Ident)
+	if cvar == nil {
+		fail("loopvar", "no element variable", rng.Pos())
+		return
+	}
+	// switch: evaluate per byte
+	var sw *ast.SwitchStmt
+	var acc *ast.AssignStmt
+	for _, s := range rng.Body.List {
+		switch t := s.(type) {
+		case *ast.SwitchStmt:
+			sw = t
+		case *ast.AssignStmt:
+			acc = t
+		}
+	}
+	if sw == nil || sw.Tag != nil {
+		r.Undecided(rs, "getu4:switch", w.Pos(rng.Pos()), "expected a tag-less switch classifying the hex digit")
+		return
+	}
+	bad := 0
+	for b := 0; b < 256; b++ {
+		got := -1
+		matched := false
+		for _, c := range sw.Body.List {
+			cc := c.(*ast.CaseClause)
+			if cc.List == nil {
+				continue
+			}
+			hit := false
+			for _, cond := range cc.List {
+				v, ok := evalByteCond(info, cond, cvar.Name, b)
+				if !ok {
+					r.Undecided(rs, "getu4:case", w.Pos(cond.Pos()), "case condition is not a comparison of the digit with constants")
+					return
+				}
+				if v {
+					hit = true
+				}
+			}
+			if hit {
+				matched = true
+				// body: c = <expr over c> or c -= k
+				val, ok := evalNibbleBody(info, cc.Body, cvar.Name, b)
+				if !ok {
+					r.Undecided(rs, "getu4:case-body", w.Pos(cc.Pos()), "case body is not an assignment of the nibble value")
+					return
+				}
+				got = val
+				break
+			}
+		}
+		if !matched {
+			// default must return negative
+			got = -1
+		}
+		want := -1
+		switch {
+		case b >= '0' && b <= '9':
+			want = b - '0'
+		case b >= 'a' && b <= 'f':
+			want = b - 'a' + 10
+		case b >= 'A' && b <= 'F':
+			want = b - 'A' + 10
+		}
+		if got != want {
+			bad++
+			if bad <= 3 {
+				fail(fmt.Sprintf("nibble[0x%02x]", b), fmt.Sprintf("byte %q yields nibble %d, the hexadecimal value is %d (-1 = reject)", rune(b), got, want), sw.Pos())
+			}
+		}
+	}
+	// default clause returns negative
+	for _, c := range sw.Body.List {
+		cc := c.(*ast.CaseClause)
+		if cc.List == nil && !returnsNegative(&ast.BlockStmt{List: cc.Body}, info) {
+			fail("default", "a non-hex digit does not make getu4 return a negative value", cc.Pos())
+		}
+	}
+	// r = r*16 + rune(c)
+	if acc == nil || normExpr(acc) != "r=r*16+rune(c)" {
+		got := ""
+		if acc != nil {
+			got = normExpr(acc)
+		}
+		// accept spelling variants by structure
+		if !accIs16(acc, cvar.Name) {
+			fail("accumulate", "the digits are not accumulated as r = r*16 + digit (found `"+got+"`)", rng.Pos())
+		}
+	}
+	if bad == 0 {
+		rs.OK(256)
+		rs.Sample("getu4: 256-entry nibble table equals the hexadecimal table; guard len>=6, '\\\\', 'u'; r = r*16 + nibble over data[2:6]")
+	}
+}
+
+func isConstInt(info *types.Info, e ast.Expr, v int64) bool {
+	if e == nil {
+		return false
+	}
+	tv, ok := info.Types[e]
+	if !ok || tv.Value == nil {
+		return false
+	}
+	i, exact := constant.Int64Val(constant.ToInt(tv.Value))
+	return exact && i == v
+}
+
+func exprText(e ast.Expr) string { return normAny(e) }
+
+// containsNorm: the disjunction cond contains a disjunct whose normalised text equals want (constants folded).
+func containsNorm(_ string, want string, info *types.Info, cond ast.Expr) bool {
+	var parts []ast.Expr
+	var split func(e ast.Expr)
+	split = func(e ast.Expr) {
+		e = ast.Unparen(e)
+		if be, ok := e.(*ast.BinaryExpr); ok && be.Op == token.LOR {
+			split(be.X)
+			split(be.Y)
+			return
+		}
+		parts = append(parts, e)
+	}
+	split(cond)
+	for _, p := range parts {
+		if normFold(info, p) == want {
+			return true
+		}
+	}
+	return false
+}
+
+func normFold(info *types.Info, e ast.Expr) string {
+	e = ast.Unparen(e)
+	if tv, ok := info.Types[e]; ok && tv.Value != nil {
+		if v := constant.ToInt(tv.Value); v.Kind() == constant.Int {
+			return v.ExactString()
+		}
+	}
+	switch t := e.(type) {
+	case *ast.BinaryExpr:
+		return normFold(info, t.X) + t.Op.String() + normFold(info, t.Y)
+	case *ast.IndexExpr:
+		return normFold(info, t.X) + "[" + normFold(info, t.Index) + "]"
+	case *ast.CallExpr:
+		s := normFold(info, t.Fun) + "("
+		for i, a := range t.Args {
+			if i > 0 {
+				s += ","
+			}
+			s += normFold(info, a)
+		}
+		return s + ")"
+	case *ast.Ident:
+		return t.Name
+	}
+	return "?"
+}
+
+func normAny(n ast.Node) string {
+	switch t := n.(type) {
+	case *ast.AssignStmt:
+		return normExpr(t)
+	case ast.Expr:
+		return normFold(&types.Info{}, t)
+	}
+	return ""
+}
+
+func normExpr(a *ast.AssignStmt) string {
+	if a == nil || len(a.Lhs) != 1 || len(a.Rhs) != 1 {
+		return ""
+	}
+	return normFold(&types.Info{}, a.Lhs[0]) + a.Tok.String() + normFold(&types.Info{}, a.Rhs[0])
+}
+
+func accIs16(a *ast.AssignStmt, cname string) bool {
+	if a == nil || len(a.Lhs) != 1 || len(a.Rhs) != 1 || a.Tok != token.ASSIGN {
+		return false
+	}
+	lhs, ok := a.Lhs[0].(*ast.Ident)
+	if !ok {
+		return false
+	}
+	add, ok := ast.Unparen(a.Rhs[0]).(*ast.BinaryExpr)
+	if !ok || add.Op != token.ADD {
+		return false
+	}
+	mul, ok := ast.Unparen(add.X).(*ast.BinaryExpr)
+	if !ok || mul.Op != token.MUL {
+		return false
+	}
+	x, ok := mul.X.(*ast.Ident)
+	lit, ok2 := mul.Y.(*ast.BasicLit)
+	if !ok || !ok2 || x.Name != lhs.Name || lit.Value != "16" {
+		return false
+	}
+	conv, ok := ast.Unparen(add.Y).(*ast.CallExpr)
+	if !ok || len(conv.Args) != 1 {
+		return false
+	}
+	arg, ok := conv.Args[0].(*ast.Ident)
+	return ok && arg.Name == cname
+}
+
+func returnsNegative(b *ast.BlockStmt, info *types.Info) bool {
+	if b == nil || len(b.List) == 0 {
+		return false
+	}
+	ret, ok := b.List[len(b.List)-1].(*ast.ReturnStmt)
+	if !ok || len(ret.Results) != 1 {
+		return false
+	}
+	tv, ok := info.Types[ret.Results[0]]
+	if !ok || tv.Value == nil {
+		return false
+	}
+	return constant.Sign(tv.Value) < 0
+}
+
+// evalByteCond evaluates a boolean expression over the byte variable cname for a concrete byte value.
+func evalByteCond(info *types.Info, e ast.Expr, cname string, b int) (bool, bool) {
+	e = ast.Unparen(e)
+	be, ok := e.(*ast.BinaryExpr)
+	if !ok {
+		return false, false
+	}
+	switch be.Op {
+	case token.LAND, token.LOR:
+		l, ok1 := evalByteCond(info, be.X, cname, b)
+		r, ok2 := evalByteCond(info, be.Y, cname, b)
+		if !ok1 || !ok2 {
+			return false, false
+		}
+		if be.Op == token.LAND {
+			return l && r, true
+		}
+		return l || r, true
+	}
+	val := func(x ast.Expr) (int64, bool) {
+		x = ast.Unparen(x)
+		if id, ok := x.(*ast.Ident); ok && id.Name == cname {
+			return int64(b), true
+		}
+		if tv, ok := info.Types[x]; ok && tv.Value != nil {
+			return constant.Int64Val(constant.ToInt(tv.Value))
+		}
+		return 0, false
+	}
+	l, ok1 := val(be.X)
+	r, ok2 := val(be.Y)
+	if !ok1 || !ok2 {
+		return false, false
+	}
+	switch be.Op {
+	case token.EQL:
+		return l == r, true
+	case token.NEQ:
+		return l != r, true
+	case token.LSS:
+		return l < r, true
+	case token.LEQ:
+		return l <= r, true
+	case token.GTR:
+		return l > r, true
+	case token.GEQ:
+		return l >= r, true
+	}
+	return false, false
+}
+
+// evalNibbleBody evaluates `c -= k` / `c = c - k + 10` (uint8 arithmetic) for a concrete byte.
+func evalNibbleBody(info *types.Info, body []ast.Stmt, cname string, b int) (int, bool) {
+	if len(body) != 1 {
+		return 0, false
+	}
+	as, ok := body[0].(*ast.AssignStmt)
+	if !ok || len(as.Lhs) != 1 || len(as.Rhs) != 1 {
+		return 0, false
+	}
+	if id, ok := as.Lhs[0].(*ast.Ident); !ok || id.Name != cname {
+		return 0, false
+	}
+	var ev func(e ast.Expr) (int64, bool)
+	ev = func(e ast.Expr) (int64, bool) {
+		e = ast.Unparen(e)
+		if id, ok := e.(*ast.Ident); ok && id.Name == cname {
+			return int64(b), true
+		}
+		if tv, ok := info.Types[e]; ok && tv.Value != nil {
+			return constant.Int64Val(constant.ToInt(tv.Value))
+		}
+		if be, ok := e.(*ast.BinaryExpr); ok {
+			l, ok1 := ev(be.X)
+			r, ok2 := ev(be.Y)
+			if !ok1 || !ok2 {
+				return 0, false
+			}
+			switch be.Op {
+			case token.ADD:
+				return int64(uint8(l + r)), true
+			case token.SUB:
+				return int64(uint8(l - r)), true
+			}
+		}
+		return 0, false
+	}
+	switch as.Tok {
+	case token.ASSIGN:
+		v, ok := ev(as.Rhs[0])
+		return int(v), ok
+	case token.SUB_ASSIGN:
+		v, ok := ev(as.Rhs[0])
+		return int(uint8(int64(b) - v)), ok
+	case token.ADD_ASSIGN:
+		v, ok := ev(as.Rhs[0])
+		return int(uint8(int64(b) + v)), ok
+	}
+	return 0, false
+}
+
+// unescapeUnicodeRule: R06e.
+func (x *Ctx) unescapeUnicodeRule(r *core.Result, rs *core.RuleStat) {
+	w := x.W
+	fn := x.Func("unescapeUnicodeChar")
+	if fn == nil {
+		r.Undecided(rs, "unescapeUnicodeChar", "-", "function not found")
+		return
+	}
+	rs.Instances++
+	ok := true
+	fail := func(k, msg string, pos token.Pos) {
+		r.Fail(rs, "unescapeUnicodeChar:"+k, w.Pos(pos), msg)
+		ok = false
+	}
+	s := fn.Params[0]
+	var first, second, isSur, dec *ssa.Call
+	for _, b := range fn.Blocks {
+		for _, ins := range b.Instrs {
+			c, isCall := ins.(*ssa.Call)
+			if !isCall || c.Call.StaticCallee() == nil {
+				continue
+			}
+			switch c.Call.StaticCallee().Name() {
+			case "getu4":
+				if c.Call.Args[0] == ssa.Value(s) {
+					first = c
+				} else {
+					second = c
+				}
+			case "IsSurrogate":
+				isSur = c
+			case "DecodeRune":
+				if c.Call.StaticCallee().Pkg != nil && c.Call.StaticCallee().Pkg.Pkg.Path() == "unicode/utf16" {
+					dec = c
+				}
+			}
+		}
+	}
+	if first == nil || second == nil || isSur == nil || dec == nil {
+		r.Undecided(rs, "unescapeUnicodeChar:shape", w.Pos(fn.Pos()), "expected getu4(s), utf16.IsSurrogate, getu4(s[6:]), utf16.DecodeRune")
+		return
+	}
+	// second getu4 on s[6:]
+	if sl, isSl := second.Call.Args[0].(*ssa.Slice); !isSl || sl.X != ssa.Value(s) || sl.High != nil {
+		fail("second", "the low surrogate is not read from s[6:]", second.Pos())
+	} else if k, isC := constBig(sl.Low); !isC || k.Int64() != 6 {
+		fail("second", "the low surrogate is not read from s[6:]", second.Pos())
+	}
+	if isSur.Call.Args[0] != ssa.Value(first) {
+		fail("surrogate-test", "IsSurrogate is not applied to the first code unit", isSur.Pos())
+	}
+	if dec.Call.Args[0] != ssa.Value(first) || dec.Call.Args[1] != ssa.Value(second) {
+		fail("pair", "DecodeRune is not given (first code unit, second code unit)", dec.Pos())
+	}
+	// everything after the first getu4 is dominated by first >= 0
+	neg := false
+	for _, ref := range *first.Referrers() {
+		if be, isBe := ref.(*ssa.BinOp); isBe && be.Op == token.LSS {
+			if k, isC := constBig(be.Y); isC && k.Sign() == 0 {
+				for _, r2 := range *be.Referrers() {
+					if iff, isIf := r2.(*ssa.If); isIf {
+						tb := iff.Block().Succs[0]
+						if ret, isRet := tb.Instrs[len(tb.Instrs)-1].(*ssa.Return); isRet && len(ret.Results) == 3 {
+							if c, isC := ret.Results[2].(*ssa.Const); isC && c.Value != nil && !constant.BoolVal(c.Value) && ret.Results[0] == ssa.Value(fn.Params[1]) {
+								neg = true
+							}
+						}
+						if !iff.Block().Succs[1].Dominates(second.Block()) {
+							fail("slice-guard", "s[6:] is evaluated without knowing that the first escape is complete (len(s) >= 6)", second.Pos())
+						}
+					}
+				}
+			}
+		}
+	}
+	if !neg {
+		fail("reject", "a malformed first escape does not return (dst unchanged, _, false)", first.Pos())
+	}
+	// returns
+	for _, b := range fn.Blocks {
+		ret, isRet := b.Instrs[len(b.Instrs)-1].(*ssa.Return)
+		if !isRet || len(ret.Results) != 3 {
+			continue
+		}
+		n, isC := constBig(ret.Results[1])
+		okc, isB := ret.Results[2].(*ssa.Const)
+		if !isC || !isB || okc.Value == nil {
+			fail("return-shape", "bytes handled / ok are not constants per path", ret.Pos())
+			continue
+		}
+		okv := constant.BoolVal(okc.Value)
+		switch {
+		case !okv:
+			continue
+		case n.Int64() == 12:
+			// dominated by IsSurrogate true and dec != U+FFFD; the rune encoded is dec
+			if !x.dominatedByBool(b, isSur, true) {
+				fail("pair-guard", "12 bytes are reported without the first unit being a surrogate", ret.Pos())
+			}
+			okDec := false
+			for d := b; d != nil; d = d.Idom() {
+				dom := d.Idom()
+				if dom == nil {
+					break
+				}
+				if iff, isIf := dom.Instrs[len(dom.Instrs)-1].(*ssa.If); isIf {
+					if be, isBe := iff.Cond.(*ssa.BinOp); isBe && be.Op == token.NEQ && be.X == ssa.Value(dec) {
+						if k, isK := constBig(be.Y); isK && k.Int64() == 0xFFFD && (dom.Succs[0] == b || dom.Succs[0].Dominates(b)) {
+							okDec = true
+						}
+					}
+				}
+			}
+			if !okDec {
+				fail("pair-valid", "12 bytes are reported although the pair may be invalid (DecodeRune returned U+FFFD)", ret.Pos())
+			}
+			if !x.encodes(b, dec) {
+				fail("pair-encode", "the rune written for a valid pair is not DecodeRune's result", ret.Pos())
+			}
+		case n.Int64() == 6:
+			// encodes rr = phi(first, U+FFFD on the invalid-pair path)
+			if !x.encodesFirstOrReplacement(b, first, isSur) {
+				fail("single-encode", "the rune written for a single escape is not the code unit itself (U+FFFD for an unpaired surrogate)", ret.Pos())
+			}
+		default:
+			fail("count", fmt.Sprintf("a success path reports %d bytes handled (must be 6 or 12)", n.Int64()), ret.Pos())
+		}
+	}
+	if ok {
+		rs.OK(1)
+		rs.Sample("unescapeUnicodeChar: (…,12,true) only for a valid surrogate pair, encoding DecodeRune's result; otherwise 6 with the unit or U+FFFD; false only for a malformed first escape")
+	}
+}
+
+// encodes: block b calls utf8.EncodeRune(…, v).
+func (x *Ctx) encodes(b *ssa.BasicBlock, v ssa.Value) bool {
+	for _, ins := range b.Instrs {
+		if c, ok := ins.(*ssa.Call); ok && c.Call.StaticCallee() != nil && c.Call.StaticCallee().Name() == "EncodeRune" && len(c.Call.Args) == 2 && c.Call.Args[1] == v {
+			return true
+		}
+	}
+	return false
+}
+
+func (x *Ctx) encodesFirstOrReplacement(b *ssa.BasicBlock, first, isSur *ssa.Call) bool {
+	for _, ins := range b.Instrs {
+		c, ok := ins.(*ssa.Call)
+		if !ok || c.Call.StaticCallee() == nil || c.Call.StaticCallee().Name() != "EncodeRune" || len(c.Call.Args) != 2 {
+			continue
+		}
+		v := c.Call.Args[1]
+		if v == ssa.Value(first) {
+			// only valid when the unit is not a surrogate on every path here
+			return x.dominatedByBool(b, isSur, false)
+		}
+		phi, isPhi := v.(*ssa.Phi)
+		if !isPhi {
+			return false
+		}
+		for i, e := range phi.Edges {
+			pred := phi.Block().Preds[i]
+			if e == ssa.Value(first) {
+				// edge from the not-a-surrogate side
+				if x.dominatedByBool(pred, isSur, true) || pred == isSur.Block() && false {
+					return false
+				}
+				continue
+			}
+			if k, isK := constBig(e); isK && k.Int64() == 0xFFFD {
+				continue
+			}
+			return false
+		}
+		return true
+	}
+	return false
+}
+
+// stringContentRules: R06b-e.
+func (x *Ctx) stringContentRules(r *core.Result) {
+	b := r.Rule("R06b", "content: on every path of both string machines each raw byte is emitted exactly once from the recorded segment start (unchanged, whatever its value), each simple escape emits exactly its RFC 8259 code point, the \\u helper is invoked exactly at the fourth hex digit with the slice starting at the backslash, the skipped second escape of a pair is consistent, and nothing is pending at acceptance; the hand-written prefix loops copy data[start:p] once")
+	for _, n := range []string{"appendRemainderOfString", "unescapeStringContent"} {
+		m := x.Machine(n)
+		if m == nil {
+			r.Undecided(b, n, "-", "machine not found")
+			continue
+		}
+		x.reportMachineProblems(r, b, n)
+		x.emissionTypestate(r, b, m, n == "unescapeStringContent")
+	}
+	x.fastLoopRule(r, b, "ReadStringBytes")
+	x.fastLoopRule(r, b, "ReadString")
+	r.CheckFloor(b, 4)
+
+	c := r.Rule("R06c", "UnescapeStringContent: for every well-formed string content (the bytes between the quotes) it succeeds and consumes all of it (reference-driven simulation; its tolerance of \\' lies outside the reference and is ignored)")
+	if m := x.Machine("unescapeStringContent"); m != nil {
+		x.bisim(r, c, "unescapeStringContent", m.LTS, ref.StringContent(), product.Options{RefDriven: true})
+		x.wrapperIdentity(r, c, "UnescapeStringContent", "unescapeStringContent")
+	} else {
+		r.Undecided(c, "unescapeStringContent", "-", "machine not found")
+	}
+	r.CheckFloor(c, 2)
+
+	d := r.Rule("R06d", "getu4: the hex-digit switch evaluated for all 256 bytes equals the hexadecimal table; non-negative results require len >= 6, a backslash and 'u'; accumulation is r*16 + nibble over exactly data[2:6]")
+	x.getu4Rule(r, d)
+	r.CheckFloor(d, 1)
+
+	e := r.Rule("R06e", "unescapeUnicodeChar: reports 12 bytes exactly when the first unit is a surrogate and utf16.DecodeRune(first, getu4(s[6:])) is valid, writing that rune; otherwise writes the unit itself (U+FFFD for an unpaired surrogate) and reports 6; fails only when the first escape is malformed; s[6:] is evaluated only after the first escape was validated")
+	x.unescapeUnicodeRule(r, e)
+	r.CheckFloor(e, 1)
+}
